@@ -23,7 +23,9 @@ META = {
 }
 CASE_TIMEOUT = 180
 KINDS = ([f"tpi:{l}" for l in forcegen.LAWS] + [f"rev:{l}" for l in forcegen.LAWS]
-         + ["ext:Force", "ext:B_Force", "ext:Moment", "ext:B_Moment", "act:Motor", "act:PD", "act:PID", "ext:Force", "act:PID"])
+         + ["ext:Force", "ext:B_Force", "ext:Moment", "ext:B_Moment", "act:Motor", "act:PD", "act:PID", "ext:Force", "act:PID"]
+         # the same laws on a device of micrometre size: lengths ~1e-7..1e-4, forces ~1e-11..1e-5 (nothing is of order one)
+         + [f"micro:{l}" for l in forcegen.LAWS if not l.startswith("Maxwell")])
 
 
 def cases(tier, seed):
@@ -35,7 +37,61 @@ def _key(site, J, D, err, det):
     return None
 
 
+def run_micro(spec, ctx):
+    """two point masses a few micrometres apart, joined by a soft spring / spring-damper: every length, velocity and force is
+    many orders below one, the derivatives (stiffness, damping, force / length) are not"""
+    env.import_cardillo()
+    from cardillo import System
+    from cardillo.discrete import PointMass
+    from cardillo.interactions import TwoPointInteraction
+    from cardillo.force_laws import Spring, KelvinVoigtElement
+    rng = ctx.rng
+    law = spec["kind"].partition(":")[2]
+    name, _, form = law.partition(":")
+    sc = float(loguniform(rng, 1e-7, 1e-4))
+    k = float(loguniform(rng, 1e-4, 1e-1)); d = float(loguniform(rng, 1e-4, 1e-1))
+    with gen.quiet():
+        S = System()
+        a = PointMass(float(loguniform(rng, 1e-9, 1e-3)), q0=sc * rng.normal(size=3), name="a")
+        dirn = rng.normal(size=3); dirn /= np.linalg.norm(dirn)
+        l0 = sc * float(rng.uniform(1.0, 3.0))
+        b = PointMass(float(loguniform(rng, 1e-9, 1e-3)), q0=a.q0 + l0 * dirn, name="b")
+        tpi = TwoPointInteraction(a, b)
+        l_ref = None if rng.random() < 0.3 else l0 * float(rng.uniform(0.5, 1.5))
+        kw = dict(l_ref=l_ref, compliance_form=(form == "compliance"))
+        elem = Spring(tpi, k, **kw) if name == "Spring" else KelvinVoigtElement(tpi, k, d, **kw)
+        S.add(a, b, tpi, elem)
+        det = {"kind": spec["kind"], "length_scale": sc, "k": k, "d": d, "l0": l0, "l_ref": l_ref}
+        try:
+            S.assemble(options=gen.no_cic_options())
+        except Exception as e:
+            ctx.mon("D:h_q")
+            ctx.violation(f"{spec['kind']}.assemble", "system with this element fails to assemble", {**det, "error": f"{type(e).__name__}: {e}"[:300]})
+            ctx.sig([det, "assemble-failed"], nontrivial=True)
+            return
+        ctx.cls(f"element:{spec['kind']}")
+        label = spec["kind"]
+        hrel = 1e-4 * sc
+        for k_ in range(3):
+            t = float(rng.normal())
+            q = np.asarray(S.q0, dtype=float) + 0.2 * sc * rng.normal(size=S.nq)
+            u = sc * rng.normal(size=S.nu) * float(loguniform(rng, 1e-2, 1e2))
+            la_c = rng.normal(size=S.nla_c) * k * sc
+            ex = {**det, "t": t, "q": q, "u": u}
+            ctx.cls("state:micro")
+            so.jac(ctx, f"{label}.h_q", S.h_q(t, q, u), lambda x: S.h(t, x, u), q, ex, _key, mon="D:h_q", hrel=hrel)
+            so.jac(ctx, f"{label}.h_u", S.h_u(t, q, u), lambda x: S.h(t, q, x), u, ex, _key, mon="D:h_u", hrel=hrel)
+            if S.nla_c:
+                so.jac(ctx, f"{label}.c_q", S.c_q(t, q, u, la_c), lambda x: S.c(t, x, u, la_c), q, ex, _key, mon="D:c_q", hrel=hrel)
+                so.jac(ctx, f"{label}.c_u", S.c_u(t, q, u, la_c), lambda x: S.c(t, q, x, la_c), u, ex, _key, mon="D:c_u", hrel=hrel)
+                so.jac(ctx, f"{label}.Wla_c_q", S.Wla_c_q(t, q, la_c), lambda x: dense(S.W_c(t, x)) @ la_c, q, ex, _key, mon="D:Wla_c_q", hrel=hrel)
+    ctx.sig([det], nontrivial=True)
+    ctx.sample(det)
+
+
 def run_case(spec, ctx):
+    if spec["kind"].startswith("micro:"):
+        return run_micro(spec, ctx)
     env.import_cardillo()
     from cardillo import System
     import cardillo.forces as F
